@@ -49,6 +49,11 @@ def build_geo(recipe, repo):
             geo.atmosphere_volume = op[1]
         elif k == 'atmconn':
             geo.atmosphere_connection = op[1]
+        elif k == 'centres':
+            # layer centres off the mid-point (a MULgraph file gives each layer's centre separately)
+            for i, f in op[1]:
+                lay = geo.layerlist[i]
+                lay.centre = lay.bottom + f * (lay.top - lay.bottom)
         elif k == 'surface':
             # explicit elevations per column index, then the documented refresh calls
             for i, s in op[1]:
@@ -182,6 +187,10 @@ def gen_recipe(rng, kind=None, repo='/repo', big=False):
         ops.append(('tilt', gx, gy))
     if rng.random() < 0.4: ops.append(('atmvol', rng.choice([1.e25, 1.e50, 1.e20, rng.uniform(1e10, 1e30)])))
     if rng.random() < 0.4: ops.append(('atmconn', rng.choice([1.e-6, 1.e-3, 1.0, rng.uniform(1e-9, 10.0)])))
+    if rng.random() < 0.3:
+        nl = len(rebuild().layerlist)
+        ops.append(('centres', [(i, rng.choice([0.25, 0.4, 0.6, 0.75, rng.uniform(0.05, 0.95)]))
+                                for i in range(1, nl) if rng.random() < 0.7]))
     geo = rebuild()
     mode = rng.choices(['default', 'some', 'all', 'slope', 'boundary'], [12, 25, 38, 15, 10])[0]
     surf = choose_surfaces(rng, geo, mode)
